@@ -1228,6 +1228,34 @@ class Interp:
             v = views.get((X.get_id(), ty))
             if v is not None:
                 return Sc(ty, v[1])
+            # round / ceil / floor / trunc of a value that has an integer view (the owner of the view guarantees 0 <= Y < 2^52,
+            # finite): (f(Y) as uN) = view + {0,1}, the increment being a fresh boolean that stands for the fractional part of Y
+            # (every fractional part is possible for every integer part, so nothing is lost); the exact FP meaning of the boolean
+            # is kept in smt.int_view_links and only added when a witness is extracted
+            if z3.is_app(X) and X.decl().kind() == z3.Z3_OP_FPA_ROUND_TO_INTEGRAL and X.num_args() == 2:
+                rm, Y = X.arg(0), X.arg(1)
+                vy = views.get((Y.get_id(), ty))
+                if vy is not None:
+                    rk = rm.decl().kind()
+                    if rk in (z3.Z3_OP_FPA_RM_TOWARD_ZERO, z3.Z3_OP_FPA_RM_TOWARD_NEGATIVE):
+                        return Sc(ty, vy[1])
+                    name = {z3.Z3_OP_FPA_RM_TOWARD_POSITIVE: 'fracpos', z3.Z3_OP_FPA_RM_NEAREST_TIES_TO_AWAY: 'fracgehalf',
+                            z3.Z3_OP_FPA_RM_NEAREST_TIES_TO_EVEN: 'roundsup'}.get(rk)
+                    if name is not None:
+                        b = z3.Bool('%s_%d' % (name, Y.get_id()))
+                        frac = z3.fpSub(S.RNE, Y, z3.fpRoundToIntegral(S.RTZ, Y))
+                        if name == 'fracpos':
+                            link = b == z3.fpGT(frac, z3.FPVal(0.0, S.F64))
+                        elif name == 'fracgehalf':
+                            link = b == z3.fpGEQ(frac, z3.FPVal(0.5, S.F64))
+                        else:
+                            link = b == z3.fpGT(X, z3.fpRoundToIntegral(S.RTZ, Y))
+                        ll = getattr(self.smt, 'int_view_links', None)
+                        if ll is None:
+                            ll = self.smt.int_view_links = []
+                        if not any(l.eq(link) for l in ll):
+                            ll.append(link)
+                        return Sc(ty, vy[1] + z3.If(b, z3.BitVecVal(1, w), z3.BitVecVal(0, w)))
         fhi = z3.FPVal(float(hi + 1), S.F64)   # 2^63 / 2^64 exactly representable
         flo = z3.FPVal(float(lo), S.F64)
         conv = z3.fpToSBV(S.RTZ, X, z3.BitVecSort(w)) if signed else z3.fpToUBV(S.RTZ, X, z3.BitVecSort(w))
